@@ -1,4 +1,5 @@
 import IOptModel
+import IOptGen.StronginC3Src
 /-!
 # Line-protocol driver: runs the `Float` instance of the model.
 
@@ -305,6 +306,18 @@ def step (c : Ctx) (line : String) : Ctx × String :=
         let mat := fun (k : Nat) => (List.range 7).map fun i => ((fs.drop (49 * k + 7 * i)).take 7)
         (c, hx (Prob.grishagin (mat 0) (mat 1) (mat 2) (mat 3) (fs.getD 196 0) (fs.getD 197 0))) else (c, "bad-op")
     | none => (c, "bad-op")
+  | "pb.s3" :: which :: rest =>
+    -- StronginC3: the functions are the translation of the current source text (IOptGen/StronginC3Src.lean)
+    match parseFs rest with
+    | some [x1, x2] =>
+      let lit := fun (bits : List Nat) (k : Nat) => Float.ofBits (bits.getD k 0).toUInt64
+      match which with
+      | "obj" => (c, hx (Gen.S3.objective (lit Gen.S3.objectiveLits) x1 x2))
+      | "c0" => (c, hx (Gen.S3.constraint0 (lit Gen.S3.constraint0Lits) x1 x2))
+      | "c1" => (c, hx (Gen.S3.constraint1 (lit Gen.S3.constraint1Lits) x1 x2))
+      | "c2" => (c, hx (Gen.S3.constraint2 (lit Gen.S3.constraint2Lits) x1 x2))
+      | _ => (c, "bad-op")
+    | _ => (c, "bad-op")
   | "pb.gkls" :: dim :: rest =>
     match dim.toNat?, parseFs rest with
     | some dim, some fs => if fs.length == 10 * dim + 20 + dim then
